@@ -275,10 +275,6 @@ func short(b string) string {
 	return fmt.Sprintf("%q", b)
 }
 
-type obsEntry struct {
-	NS, Key, Val string
-}
-
 func render(state []*handlerpb.StateEntryNamespace) []string {
 	out := []string{}
 	for _, g := range state {
@@ -420,7 +416,9 @@ type run struct {
 // task groups of ALL databases are done is none of their tasks left.
 func (r *run) quiesce() {
 	for _, db := range r.dbs {
-		waitTasks(db)
+		if !waitTasks(db) {
+			r.res.Count("wait_timeouts", 1)
+		}
 	}
 }
 
@@ -489,6 +487,8 @@ type storeWorld struct {
 	ch      chan fetchRes
 	done    chan struct{}
 	arr     *gate.Arrival
+
+	sabotaged bool
 }
 
 func (w *storeWorld) opts() dkv.DBOptions {
@@ -590,7 +590,14 @@ func replayStore(bi int, beh []mbt.Step, in *mbt.Input, res *mbt.Result) {
 				items = append(items, nx)
 				si++
 			}
-			if err := w.st.ApplyMutations(w.c.key(it.k), w.c.mutations(items)); err != nil {
+			real := items
+			if !w.sabotaged && in.CfgBool("Sabotage", false) && it.v != 0 && r.sh[it.k][cell{it.n, it.e}] != it.v {
+				// binding self-test: the first effective put is withheld from the real store
+				// (the shadow map still records it), so a later fetch must be reported
+				w.sabotaged = true
+				real = items[1:]
+			}
+			if err := w.st.ApplyMutations(w.c.key(it.k), w.c.mutations(real)); err != nil {
 				r.violate(si, fmt.Sprintf("ApplyMutations fails: %v", err), nil, nil)
 				return
 			}
@@ -741,12 +748,14 @@ func replayStore(bi int, beh []mbt.Step, in *mbt.Input, res *mbt.Result) {
 	res.Executed++
 }
 
-func waitTasks(db *dkv.DB) {
+func waitTasks(db *dkv.DB) bool {
 	done := make(chan struct{})
 	go func() { db.WaitOnTasks(); close(done) }()
 	select {
 	case <-done:
+		return true
 	case <-time.After(5 * time.Second):
+		return false
 	}
 }
 
